@@ -272,7 +272,14 @@ Definition step (s : store) (o : op) : store * outcome :=
     end
   | OCancel i =>
     match find_sink s i with
-    | Some _ => (upd s (snaps s) (tmps s) (drop_sink (sinks s) i) (flag s), ROk)
+    | Some k =>
+      match k_hdr k with
+      | HFullBad =>
+        (* Cancel closes the FullSink first; with data missing that fails (ErrIncomplete) and the
+           temporary directory is left behind until the next restart *)
+        (upd s (snaps s) (k_dir k :: tmps s) (drop_sink (sinks s) i) (flag s), RError)
+      | _ => (upd s (snaps s) (tmps s) (drop_sink (sinks s) i) (flag s), ROk)
+      end
     | None => (s, RSkipped)
     end
   | OSetFull => (upd s (snaps s) (tmps s) (sinks s) true, ROk)
